@@ -933,7 +933,10 @@ func (ev *evaluator) evalCall(c *mrogen.Call, en *env) *callResult {
 			for k := range sv.d.flat() {
 				srcDeps[k] = true
 			}
-			if _, isRef := sp.E.(mrogen.Ref); isRef && len(sv.d.flat()) > 0 {
+			if r, isRef := sp.E.(mrogen.Ref); isRef && len(sv.d.flat()) > 0 {
+				if len(r.Path) > 0 {
+					ev.feature("map-source:dynamic-projection:" + mapKind)
+				}
 				ev.feature("map-source:dynamic")
 			} else {
 				ev.feature("map-source:static")
